@@ -144,6 +144,23 @@ Theorem C08_shorthdr_consumed : forall data k c l pn pnLen kp,
 Proof. exact parse_short_consumed. Qed.
 Print Assumptions C08_shorthdr_consumed.
 
+(** parse -> Append -> parse is a fixpoint: a long header with a packet number parsed from ANY byte string
+    (Length small enough for the 2-byte field Append writes; reserved bits may be set) is written by Append
+    in GetLength bytes and parses back to the same fields, packet number and packet number length. *)
+Theorem C08_longhdr_reencode : forall b h c x payload,
+  Forall (fun y => 0 <= y < 256) b -> zlen b <= maxVarInt8 ->
+  parse_header b = Some (h, 0) ->
+  (hType h = H_PacketTypeInitial \/ hType h = H_PacketTypeHandshake \/ hType h = H_PacketType0RTT) ->
+  hLength h <= maxVarInt2 ->
+  parse_extended h b = (c, Some x) ->
+  exists enc, append_ext x (hVersion h) = (0, enc) /\ zlen enc = get_length x /\
+    let fb := 192 + 16 * type_code (hVersion h) (hType (eHdr x)) + (ePnLen x - 1) in
+    let h2 := mkHeader fb (hType h) (hVersion h) (hSrc h) (hDst h) (hLength h) (hToken h) (zlen enc - ePnLen x) in
+    parse_header (enc ++ payload) = Some (h2, 0) /\
+    parse_extended h2 (enc ++ payload) = (0, Some (mkExt h2 fb (ePnLen x) (ePn x) (zlen enc))).
+Proof. exact longhdr_reencode. Qed.
+Print Assumptions C08_longhdr_reencode.
+
 (** Is0RTTPacket (used before the header is parsed) agrees with the parsed packet type. *)
 Theorem C08_is0rtt_agrees : forall b h,
   parse_header b = Some (h, 0) -> is_long (hd 0 b) = true -> is_0rtt b = (hType h =? H_PacketType0RTT).
@@ -163,6 +180,23 @@ Example C08_longhdr_nonvacuous :
   = Some (mkHeader 210 H_PacketTypeInitial H_Version2 [1; 2; 3] [4; 5; 6; 7; 8; 9; 10; 11] 16383 [170; 187] 23, 0).
 Proof. vm_compute. repeat split; congruence. Qed.
 Print Assumptions C08_longhdr_nonvacuous.
+
+(** ... and a byte string satisfying the hypotheses of the re-encoding theorem (Handshake, version 1,
+    1-byte Length field, reserved bits set). *)
+Example C08_reencode_nonvacuous :
+  let b := [236; 0; 0; 0; 1; 1; 7; 0; 5; 1; 2; 3; 4; 5] in
+  match parse_header b with
+  | Some (h, 0) =>
+    hType h = H_PacketTypeHandshake /\ hLength h = 5 /\
+    match parse_extended h b with
+    | (c, Some x) => c = E_Reserved /\ ePn x = 1 /\ ePnLen x = 1 /\
+                     append_ext x (hVersion h) = (0, [224; 0; 0; 0; 1; 1; 7; 0; 64; 5; 1])
+    | _ => False
+    end
+  | _ => False
+  end.
+Proof. vm_compute. repeat split; reflexivity. Qed.
+Print Assumptions C08_reencode_nonvacuous.
 
 Example C08_vneg_nonvacuous :
   parse_vneg (compose_vneg 37 [1; 2] [3] (greased 1 439041101 [1; 1798521807]))
